@@ -517,6 +517,9 @@ func genFrozen(r *rand.Rand, id string, tier string) string {
 	// switch read-only on
 	v, _ := parseV(strings.Fields(recv))
 	v.Cfg.Opt |= fRO
+	if r.Intn(4) == 0 {
+		v.Cfg.Err = 7 // an error is already recorded (SetErr is a documented exception): the guards must not depend on it
+	}
 	names := methodNames(kind)
 	var calls []string
 	for i, n := 0, 1+r.Intn(4); i < n; i++ {
